@@ -10,7 +10,9 @@ from harness.core import Outcome
 
 ID = "C13"
 LEAN_TARGETS = ["BeyondVerif.Props.C13", "BeyondVerif.Props.C13Parts", "BeyondVerif.Props.C13Opm", "BeyondVerif.Props.C13Omm",
-                "BeyondVerif.Props.C13Groups", "BeyondVerif.Witness.C13"]
+                "BeyondVerif.Props.C13Groups", "BeyondVerif.Props.C13Ext", "BeyondVerif.Props.C13Wf", "BeyondVerif.Props.C13Oem", "BeyondVerif.Props.C13Tdm",
+                "BeyondVerif.Props.C13KvnDict", "BeyondVerif.Props.C13Kvn", "BeyondVerif.Props.C13KvnOem", "BeyondVerif.Props.C13KvnTdm",
+                "BeyondVerif.Props.C13Agree", "BeyondVerif.Witness.C13", "BeyondVerif.Witness.C13Ext"]
 THEOREMS = [
     "BeyondVerif.C13.recurseKids_group",
     "BeyondVerif.C13.iterGroup_promote",
@@ -41,6 +43,37 @@ THEOREMS = [
     "BeyondVerif.C13.oem_covs_xml_group",
     "BeyondVerif.C13.obs_xml_roundtrip",
     "BeyondVerif.C13.observations_xml_roundtrip",
+    "BeyondVerif.C13.seg_xml_load_dump_id",
+    "BeyondVerif.C13.oem_xml_load_dump_id",
+    "BeyondVerif.C13.tdm_xml_load_dump_id",
+    "BeyondVerif.C13.tdm_xml_single_path",
+    "BeyondVerif.C13.kvn2dict_blocks",
+    "BeyondVerif.C13.opm_kvn_load_dump_id",
+    "BeyondVerif.C13.omm_kvn_load_dump_id",
+    "BeyondVerif.C13.opm_kvn_xml_agree",
+    "BeyondVerif.C13.omm_kvn_xml_agree",
+    "BeyondVerif.C13.oem_kvn_load_dump_id",
+    "BeyondVerif.C13.tdm_kvn_load_dump_id",
+    "BeyondVerif.C13.oem_kvn_xml_agree",
+    "BeyondVerif.C13.tdm_kvn_xml_agree",
+    "BeyondVerif.C13.opm_redump_total",
+    "BeyondVerif.C13.omm_kvn_needs_no_tle",
+    "BeyondVerif.C13.omm_redump_total",
+    "BeyondVerif.C13.oem_redump_total",
+    "BeyondVerif.C13.tdm_kvn_single_path",
+    "BeyondVerif.C13.tdm_redump_total_partial",
+    "BeyondVerif.C13.stamp_roundtrip_same_scale",
+    "BeyondVerif.C13.stamp_instant_of_converting",
+    "BeyondVerif.C13.stamp_instant_roundtrip_partial",
+    "BeyondVerif.C13.man_ignition_tables",
+    "BeyondVerif.C13.thrust_window_roundtrip",
+    "BeyondVerif.C13.date_attr_shifts_window",
+    "BeyondVerif.C13.ud_prefix_tables",
+    "BeyondVerif.C13.ud_key_roundtrip",
+    "BeyondVerif.C13W.mixed_scale_moves_instant",
+    "BeyondVerif.C13W.oem_xml_noncartesian_form",
+    "BeyondVerif.C13W.opm_keplerian_maneuver_lost",
+    "BeyondVerif.C13W.man_stop_dated_ok",
     "BeyondVerif.C13W.oem_xml_one_point_ok",
     "BeyondVerif.C13W.oem_kvn_one_point_ok",
     "BeyondVerif.C13W.oem_xml_two_points_ok",
@@ -57,55 +90,70 @@ THEOREMS = [
     "BeyondVerif.C13W.tdm_elevation_without_azimuth_ok",
     "BeyondVerif.C13W.tdm_two_paths_reload_as_list",
 ]
-LEVEL_TEXT = ("Lean theorems over a structural model of beyond/io/ccsds (element trees, tokenised KVN lines, xml2dict / kvn2dict, the eight "
-              "readers/writers): load_dump_id for WHOLE messages in XML for two message types — every well-formed OPM (ten frames, covariance "
-              "absent/own/QSW/TNW, any number of maneuvers of either kind in own/QSW/TNW with or without comment, any number of user-defined "
-              "fields, Keplerian block or not: opm_xml_load_dump_id) and every well-formed OMM (omm_xml_load_dump_id) is read back from what "
-              "the XML writer produced; for every list length the dict builder turns a run of same-tag siblings into the value (one) or the "
-              "list (two or more) and the readers' iteration returns exactly the written values (xml_group_roundtrip, by induction), "
-              "instantiated for every XML group: maneuvers, user-defined parameters, OEM state vectors and covariance blocks, TDM observations "
-              "of all four classes (any n >= 1). Tables regenerated from the source on every run and checked by `decide`: covariance key matrix "
-              "symmetric and equal to the writers' keys, OEM row keys, the ten frames, covariance and maneuver frame aliases invert (QSW, TNW), "
-              "written units known, which groups each reader wraps. Exact differential correspondence (message tokens at written precision, "
-              "error kinds) of the compiled model with the real dumps/loads for all four message types x both encodings x re-dump.")
-LEVEL_NOTE = ("whole-message load_dump_id is proved for OPM and OMM in XML; for OEM and TDM in XML only the groups (points, covariance blocks, "
-              "observations) are general theorems (covariance-to-point attachment, participants/path numbering and segment splitting are not), "
-              "and the four KVN encodings are covered by kernel-checked instances (Witness/C13.lean) and the exact correspondence only; one clause "
-              "is false of the current code (open finding: a multi-path TDM reloads as a list that dumps refuses); float formatting/parsing, lxml "
-              "and KVN tokenisation are parameters of the model; Lean kernel + propext/Classical.choice/Quot.sound")
-TECHNIQUE = ("Lean 4 proof by induction over sibling lists + kernel `decide` on tables regenerated from the Python AST and on concrete messages; "
+LEVEL_TEXT = ("Lean theorems over a structural model of beyond/io/ccsds (element trees, tokenised KVN lines, xml2dict / kvn2dict, the OEM / TDM line state "
+              "machines, the eight readers/writers). load_dump_id is proved for WHOLE messages of all four types in BOTH encodings, universally quantified, by "
+              "induction over the lists of segments / points / covariance blocks / maneuvers / observations / user-defined fields: opm_xml_load_dump_id, "
+              "opm_kvn_load_dump_id (kvn2dict groups the MAN_ lines into one dict per maneuver, comment attached), omm_xml_load_dump_id, omm_kvn_load_dump_id, "
+              "oem_xml_load_dump_id, oem_kvn_load_dump_id (each covariance block attached to the point of the same epoch, any number of segments), "
+              "tdm_xml_load_dump_id, tdm_kvn_load_dump_id (participants numbered in order of first appearance, PATH, split by path; the KVN metadata dict never "
+              "reset between segments). From them: kvn_xml_agree for the four types (opm_/omm_/oem_/tdm_kvn_xml_agree) and redump_total (what either reader "
+              "returns is accepted by both writers and is a fixed point of dump-then-load: opm_/omm_/oem_redump_total; tdm_redump_total_partial for a single "
+              "path). Dates: a secondary date labelled in the message's TIME_SYSTEM comes back identical, the instant of any date is kept iff the writer "
+              "converts or the clocks agree (stamp_*); the thrust window [start, stop) of a continuous maneuver dated by start / median / stop comes back "
+              "(thrust_window_roundtrip). Tables regenerated from the source on every run and checked by `decide`: covariance key matrix, OEM row keys, the ten "
+              "frames, covariance and maneuver frame aliases, written units, which groups each reader wraps, the date attribute printed as MAN_EPOCH_IGNITION, the "
+              "readers' date_pos, whether the writers convert time scales / forms / Keplerian maneuvers. Exact differential correspondence (message tokens at "
+              "written precision, error kinds, clock readings) of the compiled model with the real dumps/loads for all four types x both encodings x re-dump.")
+LEVEL_NOTE = ("whole-message theorems hold for well-formed objects: non-empty texts, one of the ten Earth-centred frames, covariance / maneuver frames own, QSW or TNW, "
+              "distinct epochs inside an ephemeris, at most nine participants per path, one time scale per message; five clauses are false of the current code and "
+              "kept as `_partial` theorems + kernel-checked counter-witnesses (open findings: multi-path TDM reloads as a list dumps refuses; dates labelled in "
+              "another scale than the message move by the scale offset — OPM maneuvers, OEM points, TDM observations; OEM XML writer refuses non-cartesian points; "
+              "Keplerian maneuvers not written); float formatting/parsing, Date arithmetic, lxml and the splitting of KVN text into tokens are parameters of the "
+              "model (exercised by the correspondence and the oracle); Lean kernel + propext/Classical.choice/Quot.sound")
+TECHNIQUE = ("Lean 4 proof by induction over line / sibling / segment lists + kernel `decide` on tables regenerated from the Python AST and on concrete messages; "
              "exact model/implementation correspondence through the line-protocol driver")
 TRUSTED = [
     "harness/props/C13.py read_tables(): AST extraction of units_dict keys, covariance key matrix / element names / key spelling, frame alias rules of "
-    "writers and readers, OEM KVN covariance row keys, OMM theories, TDM writer names / reader keys / metadata triggers, which XML groups each reader "
-    "wraps into a list, whether the OMM KVN writer needs data.tle and whether dumps accepts a list of sets -> Generated/CcsdsTables.lean; frame table from the live frame objects",
+    "writers (and the helpers they call) and readers, OEM KVN covariance row keys, OMM theories, TDM writer names / reader keys / metadata triggers, which XML groups each reader "
+    "wraps into a list, whether the OMM KVN writer needs data.tle and whether dumps accepts a list of sets -> Generated/CcsdsTables.lean; frame table from the live frame objects; "
+    "date attribute of a ContinuousMan printed as MAN_EPOCH_IGNITION, date_pos used by the readers, presence of a time-scale conversion / form conversion / Keplerian handling in the writers "
+    "-> Generated/CcsdsExtTables.lean",
     "float formatting (the writers' format specs, re-applied by the harness to the reloaded object) and float()/strptime parsing: texts are opaque tokens in the model",
     "lxml serialisation/parsing (element tree <-> text, pretty_print whitespace) and the splitting of KVN text into lines, `key = value [unit]` and whitespace-separated rows",
-    "correspondence: real dumps/loads (format by argument and by configuration) vs compiled Lean model on identical messages; exact comparison of all restored fields as written text, and of exception kinds",
+    "correspondence: real dumps/loads (format by argument and by configuration) vs compiled Lean model on identical messages; exact comparison of all restored fields as written text, of exception kinds, "
+    "of restored clock readings / labels (ext stamp), thrust windows (ext window), form and Keplerian handling (ext form, ext kepl)",
 ]
 ASSUMPTIONS = [
-    "Model/Ccsds.lean is hand-written, branch for branch after the Python; it is tied to the code by the regenerated tables and the exact correspondence run",
-    "unit conversion factors (units_dict values), Date arithmetic to the microsecond and numpy float parsing are outside the model; the oracle checks restored values with the property's tolerances (1 us, 1 mm, 1 mm/s, 1e-10 relative covariance)",
+    "Model/Ccsds.lean and Model/CcsdsExt.lean are hand-written, branch for branch after the Python; they are tied to the code by the regenerated tables and the exact correspondence run",
+    "unit conversion factors (units_dict values), Date arithmetic to the microsecond (incl. `date - duration / 2`), time-scale offsets and numpy float parsing are outside the model (offsets are parameters of "
+    "Model/CcsdsExt.lean); the oracle checks restored values with the property's tolerances (1 us, 1 mm, 1 mm/s, 1e-10 relative covariance)",
     "free texts (names, comments, user-defined values) are non-empty, do not start or end with blanks and contain none of '=', '[', 'COMMENT', line breaks; only Earth-centred frames (the ten of the quantifier); at most 9 TDM participants per path",
-    "KVN user-defined keys are modelled as a sub-dict instead of a key prefix; `key.startswith('MAN_')` is modelled on the seven MAN_ keys the writers produce",
+    "KVN user-defined keys are modelled as a sub-dict instead of a key prefix (the prefix arithmetic `k[13:]` is exercised by the oracle and the correspondence on names with underscores, digits, lower case, names that are "
+    "prefixes of each other or equal to CCSDS keywords); `key.startswith('MAN_')` is modelled on the seven MAN_ keys the writers produce",
+    "a secondary date labelled in another time scale than the message can only keep its instant, not its label (one TIME_SYSTEM per message): the oracle asks for the instant to 1 us and for the label only when it is the message's",
 ]
 NOT_COVERED = [
-    "whole-message round trip as a Lean theorem for OEM and TDM in XML (groups proved, assembly not) and for all four types in KVN (decide'd instances + exact correspondence only); kvn_xml_agree and redump_total as universally quantified theorems",
-    "interplanetary centres (CENTER_NAME other than EARTH), OMM ephemeris type / classification (XML writes constants 0 / U), continuous maneuvers shorter than 0.5 ms (reload as impulsive), acceleration columns of foreign OEMs",
+    "covariance / maneuver frames given as the NAME of an inertial frame (the orbit's own or another one): generated, checked by the oracle and the exact correspondence, but outside the well-formedness predicates of the whole-message theorems (own, QSW, TNW)",
+    "interplanetary centres (CENTER_NAME other than EARTH), OMM ephemeris type / classification (XML writes constants 0 / U), continuous maneuvers shorter than 0.5 ms (reload as impulsive), measures without a path (PVT: X, Y, ... are silently not written)",
     "string-level corner cases: texts containing '=', '[', 'COMMENT', leading/trailing blanks or that are empty/whitespace-only",
-    "clause false of the current code: a MeasureSet with several paths reloads as a list of sets that dumps() refuses (open finding C13-tdm-multi-path-reloads-as-list, proposed_fixes/C13-tdm-list-of-sets.diff not applied)",
+    "reader-only notations (default units, RTN, day-of-year dates, dates without fraction, comment lines, acceleration columns, theory SGP4, missing EPHEMERIS_TYPE / CLASSIFICATION_TYPE, centre in lower case) are checked by the oracle "
+    "(`variants`: same object decoded, re-dump possible) but not modelled; what RANGE_UNITS = s means is outside the statement (lead: tdm.py multiplies seconds by km * c with c in m/s, 1000 times too large)",
+    "clauses false of the current code (open findings, proposed fixes not applied): C13-tdm-multi-path-reloads-as-list; C13-mixed-scale-epoch-opm-maneuver / -oem-point / -tdm-observation; C13-oem-xml-dump-noncartesian-form; C13-opm-keplerian-maneuver",
 ]
 OPEN = [
-    "oem_xml_load_dump_id: assembling points_xml_roundtrip + oem_covs_xml_group with the attachment of each covariance to the point of the same epoch (distinct epochs) and the segment group",
-    "tdm_xml_load_dump_id: assembling observations_xml_roundtrip with collect_metadata (participant numbering, PATH) and the split by path",
-    "load_dump_id for the KVN encodings (kvn2dict maneuver grouping and the OEM / TDM line state machines), kvn_xml_agree, redump_total as ∀-theorems",
+    "generalise CovWf / OpmWf to frame tags that are names of other inertial frames (alias tables are the identity on them)",
+    "tdm_redump_total for several paths (false of the current code: open finding C13-tdm-multi-path-reloads-as-list)",
+    "a string-level model of the KVN tokenisation (`key = value [unit]`, COMMENT lines) instead of tokenised lines (the USER_DEFINED_ prefix is modelled separately: ud_key_roundtrip)",
 ]
-RULE = ("correspondence: objects generated from one PRNG (OPM: 10 frames x 6 scales, StateVector or Orbit, name/id as attributes or keyword arguments, kep on/off, covariance absent/own/QSW/TNW, "
-        "0-3 maneuvers impulsive/continuous in None/QSW/TNW with/without comment, user-defined fields absent/empty/1/2-4; OMM: via Tle or direct, covariance, user-defined; "
-        "OEM: 1-3 segments of 1-12 points with 0..n covariances, linear/lagrange, orders; TDM: 1-2 paths, 1-10 epochs, Range/Azimut/Elevation(/Doppler)), "
-        "format by fmt= (4/5) or configuration (1/5); per object 2 round trips + 4 re-dumps; a case is one request line, distinct = distinct line. "
-        "oracle: the same generators plus the 13 fixed witness objects, loads(dumps(x)) compared field by field with the property's tolerances, "
-        "KVN vs XML agreement, re-dump of everything loaded; failure family = exception type @ innermost beyond/io/ccsds function (or field that differs) + input class")
+RULE = ("correspondence: objects generated from one PRNG (OPM: 10 frames x 6 scales, StateVector or Orbit (Kepler / J2 / no propagator) in cartesian / keplerian / spherical / keplerian_mean / equinoctial / cylindrical form, "
+        "name/id as attributes, keyword arguments or absent, originator, kep on/off, covariance absent/own/own by name/QSW/TNW/other inertial frame, 0-3 maneuvers ImpulsiveMan / ContinuousMan (dv or accel; date_pos start/median/stop, any case) "
+        "in None/QSW/TNW (any case)/own frame by name/other inertial frame with comment absent/empty/one word/several words, user-defined fields absent/empty/1/2-4 with underscores, digits, lower case, CCSDS keywords, one a prefix of another; "
+        "OMM: via Tle or direct, classification / ephemeris type, covariance, user-defined; OEM: 1-3 segments of 1-12 points with 0..n covariances, linear/lagrange, orders, name absent; TDM: 1-2 paths of 2-4 hops with 2-3 participants, 1-10 epochs, "
+        "Range/Azimut/Elevation(/Doppler), built by append or from a list), restricted to one time scale / cartesian points / non-Keplerian maneuvers for the structural model, format by fmt= (4/5) or configuration (1/5); per object 2 round trips + 4 re-dumps; "
+        "plus the ext operations: thrust window (date_pos x duration x date), stamp (site x TIME_SYSTEM x scale), form (fmt x form), kepl (kind); a case is one request line, distinct = distinct line. "
+        "oracle: the same generators (plus Keplerian maneuvers, non-cartesian OEM points, dates labelled in another scale) and the fixed witness objects; loads(dumps(x)) compared with the ORIGINAL object field by field with the property's tolerances "
+        "(epochs: label + clock, or instant for a secondary date labelled otherwise; thrust window start and stop; delta-v; effect of the maneuver on the orbit; frames), KVN vs XML agreement, re-dump of everything loaded, and for every written text its "
+        "variants in the optional notations the readers accept (same object, re-dump); failure family = exception type @ innermost beyond/io/ccsds function (or field that differs) + input class")
 
 FRAMES = ["EME2000", "MOD", "TOD", "TEME", "PEF", "ITRF", "TIRF", "CIRF", "GCRF", "G50"]
 SCALES = ["UTC", "TAI", "TT", "GPS", "UT1", "TDB"]
@@ -149,7 +197,7 @@ def _state(rng):
     return st
 
 
-def _cov(rng):
+def _cov(rng, own="EME2000"):
     if rng.random() < 0.5:
         return None
     a = [[rng.gauss(0, 1) * (30.0 if i < 3 else 0.03) for i in range(6)] for _ in range(6)]
@@ -157,23 +205,70 @@ def _cov(rng):
     if rng.random() < 0.15:
         i, j = rng.randrange(6), rng.randrange(6)
         m[i][j] = m[j][i] = 0.0
-    return {"frame": rng.choice(["own", "own", "QSW", "TNW"]), "vals": m}
+    return {"frame": rng.choice(["own", "own", "QSW", "TNW", "QSW", "TNW", "own-by-name", rng.choice([f for f in FRAMES if f != own])]), "vals": m}
 
 
-def _mans(rng, epoch, kmax=3):
+MAN_KINDS = ["I", "C"] * 7 + ["KI", "KC"]
+DATE_POS = ["start", "start", "median", "stop", "Median", "STOP"]
+
+
+def _other_scale(rng, scale):
+    return rng.choice([x for x in SCALES if x != scale])
+
+
+def _mans(rng, epoch, kmax=3, own="EME2000", scale="UTC"):
+    """every constructor option of ImpulsiveMan / ContinuousMan / Keplerian*Man: frame None / QSW / TNW (any case) / the orbit's own
+    frame by name / another inertial frame by name; comment absent / empty / one word / several words; continuous thrust given by dv
+    or by accel, dated by its start, median or stop; rarely a date labelled in another time scale than the orbit's"""
     k = rng.choice([0, 0, 1, 1, 2, kmax])
     out = []
     for i in range(k):
-        kind = rng.choice("IC")
-        out.append({
+        kind = rng.choice(MAN_KINDS)
+        cont = kind in ("C", "KC")
+        m = {
             "kind": kind,
             "epoch": epoch + rng.randrange(1, 10**5) * 10**6 + rng.randrange(10**6),
-            "dur_ms": 0 if kind == "I" else rng.choice([1, 1000, 180000, rng.randrange(1, 10**7)]),
-            "frame": rng.choice([None, "QSW", "TNW"]),
-            "comment": rng.choice([None, "Maneuver %d" % (i + 1), _name(rng)]),
+            "dur_ms": 0 if not cont else rng.choice([1, 1000, 180000, 500, 86400000, 172800250, rng.randrange(1, 10**7)]),
+            "date_pos": rng.choice(DATE_POS) if cont else "start",
+            "by": rng.choice(["dv", "dv", "accel"]) if kind == "C" else "dv",
+            "frame": rng.choice([None, None, "QSW", "TNW", "qsw", "tnw", own, own.lower(), rng.choice([f for f in FRAMES if f != own])]),
+            "comment": rng.choice([None, None, "", "Maneuver %d" % (i + 1), _name(rng), "apogee burn no. %d (planned)" % i]),
             "dv": [round(rng.uniform(-300, 300), rng.choice([0, 3, 6])) for _ in range(3)],
-        })
+            "scale": _other_scale(rng, scale) if rng.random() < 0.04 else None,
+        }
+        if kind in ("KI", "KC"):
+            m["frame"] = None
+            m["dkep"] = {"da": rng.choice([0.0, rng.uniform(-5e4, 5e4)]), "di": rng.choice([0.0, rng.uniform(-0.01, 0.01)]),
+                         "dOmega": rng.choice([0.0, rng.uniform(-0.01, 0.01)])}
+            if not any(m["dkep"].values()):
+                m["dkep"]["da"] = 1000.0
+        out.append(m)
     return out
+
+
+def _ud_key(rng):
+    """names as the CCSDS examples have them: several words joined by underscores, digits, also lower case"""
+    word = lambda: "".join(rng.choice("ABCDEFGHIJKLMNOPQRSTUVWXYZ") for _ in range(rng.randint(1, 6)))
+    r = rng.random()
+    if r < 0.3:
+        c = word()
+    elif r < 0.55:
+        c = "_".join(word() for _ in range(rng.randint(2, 4)))                      # EARTH_MODEL
+    elif r < 0.7:
+        c = word() + "_" + str(rng.randint(0, 99)) + rng.choice(["", "_" + word()])    # TANK_1_MASS
+    elif r < 0.8:
+        c = word() + str(rng.randint(0, 9))
+    elif r < 0.9:
+        c = rng.choice(["USER_DEFINED_X", "MAN_" + word(), "EPOCH", "X", "COMMENT_" + word(), "OBJECT_NAME", "CX_X_" + word()])
+    else:
+        c = _name(rng, spaces=False).replace("(", "").replace(")", "").replace("-", "_")
+        if not c or not c[0].isalpha():
+            c = "K" + c
+    if rng.random() < 0.15:
+        c = c.lower()
+    elif rng.random() < 0.1:
+        c = c.title()
+    return c
 
 
 def _ud(rng):
@@ -185,17 +280,26 @@ def _ud(rng):
     k = 1 if r < 0.65 else rng.randint(2, 4)
     keys = []
     while len(keys) < k:
-        c = _name(rng, spaces=False).upper().replace("(", "").replace(")", "").replace("-", "_")
-        if c and c not in keys and c[0].isalpha():
+        c = _ud_key(rng)
+        if c and c not in keys:
             keys.append(c)
-    return {c: _name(rng) for c in keys}
+    if k > 1 and rng.random() < 0.3:
+        keys[1] = keys[0] + "_" + str(rng.randint(1, 9))          # one name a prefix of the other
+    return {c: rng.choice([_name(rng), "%.3f" % rng.uniform(-100, 100), "WGS-84", _name(rng) + " " + _name(rng, False)]) for c in keys}
+
+
+FORMS = ["cartesian", "cartesian", "keplerian", "spherical", "keplerian_mean", "equinoctial", "cylindrical"]
+FORMS_OEM = ["cartesian"] * 8 + ["keplerian", "spherical"]
 
 
 def gen_opm(rng):
     ep = _epoch(rng)
-    return {"type": "opm", "name": _name(rng), "id": _name(rng), "frame": rng.choice(FRAMES), "scale": rng.choice(SCALES),
-            "epoch": ep, "state": _state(rng), "kep": rng.random() < 0.7, "cov": _cov(rng), "mans": _mans(rng, ep),
-            "ud": _ud(rng), "as_orbit": rng.random() < 0.3, "meta_by_kwargs": rng.random() < 0.2}
+    frame, scale = rng.choice(FRAMES), rng.choice(SCALES)
+    return {"type": "opm", "name": _name(rng), "id": _name(rng), "frame": frame, "scale": scale,
+            "epoch": ep, "state": _state(rng), "kep": rng.random() < 0.7, "cov": _cov(rng, frame), "mans": _mans(rng, ep, own=frame, scale=scale),
+            "ud": _ud(rng), "as_orbit": rng.random() < 0.3, "meta_by_kwargs": rng.random() < 0.2,
+            "form": rng.choice(FORMS), "no_meta": rng.random() < 0.07, "originator": rng.choice([None, None, "CNES", "my agency"]),
+            "prop": rng.choice(["Kepler", "J2", "none"])}
 
 
 def gen_omm(rng):
@@ -206,7 +310,9 @@ def gen_omm(rng):
                       math.radians(rng.uniform(0, 359.9)), math.radians(rng.uniform(0, 359.9)), rng.uniform(1.0, 16.5) * 2 * math.pi / 86400.0],
             "bstar": rng.uniform(-1e-3, 1e-3), "ndot": rng.uniform(-1e-4, 1e-4), "ndotdot": rng.choice([0.0, 0.0, rng.uniform(-1e-9, 1e-9)]),
             "norad_id": rng.randint(1, 99999), "revolutions": rng.randint(0, 99999), "element_nb": rng.randint(0, 9999),
-            "cov": _cov(rng), "ud": _ud(rng), "via_tle": rng.random() < 0.5}
+            "cov": _cov(rng, "TEME"), "ud": _ud(rng), "via_tle": rng.random() < 0.5,
+            "classification": rng.choice([None, None, "U", "C"]), "ephemeris_type": rng.choice([None, None, 0, 2]),
+            "no_meta": rng.random() < 0.05}
 
 
 def gen_oem(rng, nseg=None):
@@ -218,17 +324,20 @@ def gen_oem(rng, nseg=None):
         step = rng.choice([1, 60, 180, 3600]) * 10**6 + rng.choice([0, 0, 1, 250000])
         ncov = rng.choice([0, 0, 1, 1, 2, n])
         covidx = set(rng.sample(range(n), min(ncov, n)))
+        frame, scale = rng.choice(FRAMES), rng.choice(SCALES)
+        odd = rng.randrange(n) if n > 1 and step >= 180 * 10**6 and rng.random() < 0.08 else None     # one point labelled in another time scale
         pts = []
         for i in range(n):
             c = None
             if i in covidx:
                 c = None
                 while c is None:
-                    c = _cov(rng)
-            pts.append({"epoch": ep + i * step, "state": _state(rng), "cov": c})
+                    c = _cov(rng, frame)
+            pts.append({"epoch": ep + i * step, "state": _state(rng), "cov": c, "scale": _other_scale(rng, scale) if i == odd and i > 0 else None})
         method = rng.choice(["lagrange", "lagrange", "linear"])
-        segs.append({"name": _name(rng), "id": _name(rng), "frame": rng.choice(FRAMES), "scale": rng.choice(SCALES),
-                     "method": method, "order": rng.choice([None, 2, 5, 8, 11]), "points": pts})
+        segs.append({"name": _name(rng), "id": _name(rng), "frame": frame, "scale": scale,
+                     "method": method, "order": rng.choice([None, 2, 5, 8, 11]), "points": pts,
+                     "form": rng.choice(FORMS_OEM), "no_meta": rng.random() < 0.07})
     return {"type": "oem", "segs": segs, "as_list": nseg > 1 or rng.random() < 0.3}
 
 
@@ -236,10 +345,12 @@ def gen_tdm(rng, doppler=None):
     npath = rng.choice([1, 1, 2])
     paths = []
     for _ in range(npath):
-        a, b = _name(rng, False), _name(rng, False)
+        a, b, c = _name(rng, False), _name(rng, False), _name(rng, False)
         while b == a:
             b = _name(rng, False)
-        paths.append(rng.choice([[a, b, a], [a, b], [a, b, a]]))
+        while c in (a, b):
+            c = _name(rng, False)
+        paths.append(rng.choice([[a, b, a], [a, b], [a, b, a], [a, b, c], [a, b, c, a], [a, b, a, c]]))
     kinds_all = ["Range", "Azimut", "Elevation"]
     if doppler is None:
         doppler = rng.random() < 0.1
@@ -257,10 +368,12 @@ def gen_tdm(rng, doppler=None):
         nn = n if pi == 0 else rng.choice([1, 2, 3])
         for i in range(nn):
             for kd in (kinds if nn > 1 or rng.random() < 0.5 else kinds[:1]):
-                val = {"Range": rng.uniform(3e5, 8e7), "Azimut": rng.uniform(-math.pi, math.pi),
+                val = {"Range": rng.uniform(3e5, 8e7), "Azimut": rng.choice([rng.uniform(-math.pi, math.pi), rng.uniform(-2 * math.pi, 2 * math.pi), 0.0]),
                        "Elevation": rng.uniform(0, math.pi / 2), "Doppler": rng.uniform(-7000, 7000)}[kd]
-                obs.append({"kind": kd, "path": pi, "epoch": ep + i * 5 * 10**6, "value": val})
-    return {"type": "tdm", "scale": scale, "paths": paths, "obs": obs}
+                obs.append({"kind": kd, "path": pi, "epoch": ep + i * 5 * 10**6, "value": val, "scale": None})
+    if len(obs) > 1 and rng.random() < 0.04:
+        obs[rng.randrange(1, len(obs))]["scale"] = _other_scale(rng, scale)      # one date labelled in another time scale
+    return {"type": "tdm", "scale": scale, "paths": paths, "obs": obs, "by_list": rng.random() < 0.3}
 
 
 def gen_omm_checked(rng):
@@ -288,20 +401,38 @@ def _mk_cov(orb, c):
     from beyond.orbits.cov import Cov
     if c is None:
         return None
-    return Cov(orb, c["vals"], orb.frame if c["frame"] == "own" else c["frame"])
+    fr = {"own": orb.frame, "own-by-name": orb.frame.name}.get(c["frame"], c["frame"])
+    return Cov(orb, c["vals"], fr)
 
 
 def _mk_mans(spec, scale):
     from beyond.dates import timedelta
-    from beyond.orbits.man import ImpulsiveMan, ContinuousMan
+    from beyond.orbits.man import ImpulsiveMan, ContinuousMan, KeplerianImpulsiveMan, KeplerianContinuousMan
     out = []
     for m in spec:
-        d = _date(m["epoch"], scale)
-        if m["kind"] == "I":
+        d = _date(m["epoch"], m.get("scale") or scale)
+        kind = m["kind"]
+        if kind == "I":
             out.append(ImpulsiveMan(d, list(m["dv"]), frame=m["frame"], comment=m["comment"]))
+        elif kind == "KI":
+            out.append(KeplerianImpulsiveMan(d, comment=m["comment"], **m["dkep"]))
+        elif kind == "KC":
+            out.append(KeplerianContinuousMan(d, timedelta(milliseconds=m["dur_ms"]), date_pos=m.get("date_pos", "start"), comment=m["comment"], **m["dkep"]))
         else:
-            out.append(ContinuousMan(d, timedelta(milliseconds=m["dur_ms"]), dv=list(m["dv"]), frame=m["frame"], comment=m["comment"]))
+            dur = timedelta(milliseconds=m["dur_ms"])
+            kw = {"dv": list(m["dv"])} if m.get("by", "dv") == "dv" else {"accel": [x / dur.total_seconds() for x in m["dv"]]}
+            out.append(ContinuousMan(d, dur, frame=m["frame"], comment=m["comment"], date_pos=m.get("date_pos", "start"), **kw))
     return out
+
+
+def _propagator(name):
+    if name == "J2":
+        from beyond.propagators.j2 import J2
+        return J2()
+    if name == "none":
+        return None
+    from beyond.propagators.kepler import Kepler
+    return Kepler()
 
 
 def build(spec):
@@ -310,15 +441,18 @@ def build(spec):
     t = spec["type"]
     kw = {}
     if t == "opm":
-        meta = {} if spec["meta_by_kwargs"] else {"name": spec["name"], "cospar_id": spec["id"]}
+        meta = {} if spec["meta_by_kwargs"] or spec.get("no_meta") else {"name": spec["name"], "cospar_id": spec["id"]}
         if spec["meta_by_kwargs"]:
             kw.update(name=spec["name"], cospar_id=spec["id"])
+        if spec.get("originator"):
+            kw["originator"] = spec["originator"]
         d = _date(spec["epoch"], spec["scale"])
         if spec["as_orbit"]:
-            from beyond.propagators.kepler import Kepler
-            o = Orbit(spec["state"], d, "cartesian", spec["frame"], Kepler(), **meta)
+            o = Orbit(spec["state"], d, "cartesian", spec["frame"], _propagator(spec.get("prop", "Kepler")), **meta)
         else:
             o = StateVector(spec["state"], d, "cartesian", spec["frame"], **meta)
+        if spec.get("form", "cartesian") != "cartesian":
+            o.form = spec["form"]
         if spec["cov"]:
             o.cov = _mk_cov(o, spec["cov"])
         o.maneuvers = _mk_mans(spec["mans"], spec["scale"])
@@ -330,6 +464,12 @@ def build(spec):
         d = _date(spec["epoch"], spec["scale"])
         data = dict(bstar=spec["bstar"], ndot=spec["ndot"], ndotdot=spec["ndotdot"], norad_id=spec["norad_id"],
                     revolutions=spec["revolutions"], element_nb=spec["element_nb"], name=spec["name"], cospar_id=spec["id"])
+        if spec.get("classification") is not None:
+            data["classification_type"] = spec["classification"]
+        if spec.get("ephemeris_type") is not None:
+            data["ephemeris_type"] = spec["ephemeris_type"]
+        if spec.get("no_meta") and not spec["via_tle"]:
+            del data["name"]
         o = Orbit(spec["elems"], d, "TLE", "TEME", "Sgp4", **data)
         if spec["via_tle"]:
             from beyond.io.tle import Tle
@@ -344,21 +484,28 @@ def build(spec):
         ephs = []
         for s in spec["segs"]:
             pts = []
+            meta = {} if s.get("no_meta") else {"name": s["name"], "cospar_id": s["id"]}
             for p in s["points"]:
-                sv = StateVector(p["state"], _date(p["epoch"], s["scale"]), "cartesian", s["frame"], name=s["name"], cospar_id=s["id"])
+                sv = StateVector(p["state"], _date(p["epoch"], p.get("scale") or s["scale"]), "cartesian", s["frame"], **meta)
+                if s.get("form", "cartesian") != "cartesian":
+                    sv.form = s["form"]
                 if p["cov"]:
                     sv.cov = _mk_cov(sv, p["cov"])
                 pts.append(sv)
             e = Ephem(pts, method=s["method"], order=s["order"])
-            e.name = s["name"]
-            e.cospar_id = s["id"]
+            if not s.get("no_meta"):
+                e.name = s["name"]
+                e.cospar_id = s["id"]
             ephs.append(e)
         return (ephs if spec["as_list"] else ephs[0]), kw
     if t == "tdm":
         from beyond.utils import measures
+        lst = [getattr(measures, ob["kind"])(spec["paths"][ob["path"]], _date(ob["epoch"], ob.get("scale") or spec["scale"]), ob["value"]) for ob in spec["obs"]]
+        if spec.get("by_list"):
+            return measures.MeasureSet(lst), kw
         ms = measures.MeasureSet()
-        for ob in spec["obs"]:
-            ms.append(getattr(measures, ob["kind"])(spec["paths"][ob["path"]], _date(ob["epoch"], spec["scale"]), ob["value"]))
+        for m in lst:
+            ms.append(m)
         return ms, kw
     raise ValueError(t)
 
@@ -368,6 +515,11 @@ def build(spec):
 def _us(date):
     td = date.datetime - T0
     return (td.days * 86400 + td.seconds) * 10**6 + td.microseconds
+
+
+def _tai(date):
+    """the instant: microseconds of the TAI clock (public API: change_scale)"""
+    return _us(date if date.scale.name == "TAI" else date.change_scale("TAI"))
 
 
 def _fname(fr):
@@ -384,20 +536,43 @@ def _canon_cov(orb):
 
 def _canon_sv(o):
     c = o.copy(form="cartesian")
-    return {"epoch": _us(o.date), "scale": o.date.scale.name, "frame": o.frame.name, "center": o.frame.center.name,
+    return {"epoch": _us(o.date), "scale": o.date.scale.name, "tai": _tai(o.date), "frame": o.frame.name, "center": o.frame.center.name,
             "state": [float(x) for x in c.base], "cov": _canon_cov(c)}
 
 
+def _man_frame(m, own):
+    """`None` and the orbit's own frame by name are the same thing (man.py treats every non-local frame as the orbit's)"""
+    fr = getattr(m, "frame", None)
+    if fr is None:
+        return None
+    fr = _fname(fr)
+    return None if fr == own else fr
+
+
 def _canon_mans(o):
+    """what the property lists for a maneuver — epoch = start of the thrust window, duration, end of the window, delta-v, frame,
+    comment — plus its *effect*: the velocity increment it applies to the orbit it is attached to, in the orbit's frame (this is what
+    delta-v + frame mean together, and the only thing a Keplerian maneuver has)"""
     from beyond.orbits.man import ContinuousMan
+    import numpy as np
     out = []
+    own = o.frame.name
+    cart = o.copy(form="cartesian")
     for m in getattr(o, "maneuvers", []) or []:
-        if isinstance(m, ContinuousMan):
-            out.append({"kind": "C", "epoch": _us(m.start), "scale": m.start.scale.name, "dur": m.duration.total_seconds(),
-                        "frame": m.frame if m.frame is None else _fname(m.frame), "comment": m.comment, "dv": [float(x) for x in m._dv]})
-        else:
-            out.append({"kind": "I", "epoch": _us(m.date), "scale": m.date.scale.name, "dur": 0.0,
-                        "frame": m.frame if m.frame is None else _fname(m.frame), "comment": m.comment, "dv": [float(x) for x in m._dv]})
+        cont = isinstance(m, ContinuousMan)
+        d0 = m.start if cont else m.date
+        dur = m.duration.total_seconds() if cont else 0.0
+        try:
+            eff = (np.array(m.accel(cart)) * dur) if cont else np.array(m.dv(cart))
+            eff = [float(x) for x in eff]
+        except Exception as e:        # pragma: no cover
+            eff = "%s" % type(e).__name__
+        dv = getattr(m, "_dv", None)
+        kep = hasattr(m, "da")
+        out.append({"kind": "C" if cont else "I", "epoch": _us(d0), "scale": d0.scale.name, "tai": _tai(d0), "dur": dur,
+                    "stop": _tai(m.stop) if cont else _tai(d0),
+                    "frame": "TNW" if kep else _man_frame(m, own), "comment": m.comment or None,
+                    "dv": None if kep or dv is None else [float(x) for x in dv], "effect": eff, "kepl": kep})
     return out
 
 
@@ -436,7 +611,7 @@ def canon(obj, spec=None, kw=None):
         obs = []
         for s in sets:
             for m in s:
-                obs.append({"kind": type(m).__name__, "path": list(m.path), "epoch": _us(m.date), "scale": m.date.scale.name, "value": float(m.value)})
+                obs.append({"kind": type(m).__name__, "path": list(m.path), "epoch": _us(m.date), "scale": m.date.scale.name, "tai": _tai(m.date), "value": float(m.value)})
         return {"type": "tdm", "obs": obs}
     return {"type": "unknown:" + type(obj).__name__}
 
@@ -465,10 +640,22 @@ def _cmp_cov(a, b, where, diffs):
                 return
 
 
-def _cmp_sv(a, b, where, diffs):
-    if abs(a["epoch"] - b["epoch"]) > TOL["epoch"]:
-        diffs.append((where + "epoch", a["epoch"], b["epoch"]))
-    for k in ("scale", "frame", "center"):
+def _cmp_epoch(a, b, where, diffs, main_scale=None):
+    """epoch to the microsecond in the same time scale.  `main_scale`: the TIME_SYSTEM of the message (scale of the object's own
+    date); a secondary date the user labelled in another scale cannot keep its label (one TIME_SYSTEM per message) but must
+    still be the same instant"""
+    if main_scale is None or a["scale"] == main_scale:
+        if a["scale"] != b["scale"]:
+            diffs.append((where + "scale", a["scale"], b["scale"]))
+        if abs(a["epoch"] - b["epoch"]) > TOL["epoch"]:
+            diffs.append((where + "epoch", a["epoch"], b["epoch"]))
+    elif abs(a["tai"] - b["tai"]) > TOL["epoch"]:
+        diffs.append((where + "instant", f"{a['epoch']} {a['scale']}", f"{b['epoch']} {b['scale']} ({(b['tai'] - a['tai']) / 1e6:+.6f} s)"))
+
+
+def _cmp_sv(a, b, where, diffs, main_scale=None):
+    _cmp_epoch(a, b, where, diffs, main_scale)
+    for k in ("frame", "center"):
         if a[k] != b[k]:
             diffs.append((where + k, a[k], b[k]))
     if "state" in a:
@@ -497,15 +684,19 @@ def compare(a, b):
             diffs.append(("mans.len", len(a["mans"]), len(b["mans"])))
         else:
             for i, (m, n) in enumerate(zip(a["mans"], b["mans"])):
-                for k in ("kind", "scale", "frame", "comment"):
+                for k in ("kind", "frame", "comment"):
                     if m[k] != n[k]:
                         diffs.append((f"man.{k}", m[k], n[k]))
-                if abs(m["epoch"] - n["epoch"]) > TOL["epoch"]:
-                    diffs.append(("man.epoch", m["epoch"], n["epoch"]))
+                _cmp_epoch(m, n, "man.", diffs, a["scale"])
                 if abs(m["dur"] - n["dur"]) > TOL["dur"] * 0.5000001:
                     diffs.append(("man.dur", m["dur"], n["dur"]))
-                if any(abs(x - y) > TOL["dv"] * 0.5000001 for x, y in zip(m["dv"], n["dv"])):
+                # the thrust window [start, stop): its end too (1 us on the start + 0.5 ms on the duration)
+                if abs((m["stop"] - m["tai"]) - (n["stop"] - n["tai"])) > TOL["dur"] * 0.5000001 * 1e6 + 2:
+                    diffs.append(("man.stop", m["stop"], n["stop"]))
+                if m["dv"] is not None and n["dv"] is not None and any(abs(x - y) > TOL["dv"] * 0.5000001 for x, y in zip(m["dv"], n["dv"])):
                     diffs.append(("man.dv", m["dv"], n["dv"]))
+                if isinstance(m["effect"], str) or isinstance(n["effect"], str) or any(abs(x - y) > TOL["dv"] for x, y in zip(m["effect"], n["effect"])):
+                    diffs.append(("man.effect", m["effect"], n["effect"]))
     if t == "omm":
         for i in range(6):
             x, y = a["elems"][i], b["elems"][i]
@@ -530,20 +721,23 @@ def compare(a, b):
             if len(s["points"]) != len(r["points"]):
                 diffs.append(("points.len", len(s["points"]), len(r["points"])))
                 continue
+            main = s["points"][0]["scale"] if s["points"] else None
             for p, q in zip(s["points"], r["points"]):
-                _cmp_sv(p, q, "point.", diffs)
+                _cmp_sv(p, q, "point.", diffs, main)
                 for k in ("name", "id"):
-                    if p[k] != q[k]:
+                    if p[k] is not None and p[k] != q[k]:
                         diffs.append((f"point.{k}", p[k], q[k]))
     if t == "tdm":
         if len(a["obs"]) != len(b["obs"]):
             return [("obs.len", len(a["obs"]), len(b["obs"]))]
+        main = {}
+        for p in a["obs"]:
+            main.setdefault(tuple(p["path"]), p["scale"])         # one segment (one TIME_SYSTEM) per path
         for p, q in zip(a["obs"], b["obs"]):
-            for k in ("kind", "path", "scale"):
+            for k in ("kind", "path"):
                 if p[k] != q[k]:
                     diffs.append((f"obs.{k}", p[k], q[k]))
-            if abs(p["epoch"] - q["epoch"]) > TOL["epoch"]:
-                diffs.append(("obs.epoch", p["epoch"], q["epoch"]))
+            _cmp_epoch(p, q, "obs.", diffs, main[tuple(p["path"])])
             dv = abs(p["value"] - q["value"])
             if p["kind"] == "Azimut":
                 dv = min(dv, abs(dv - 2 * math.pi))
@@ -607,12 +801,25 @@ def features(spec):
             f.append("no-tle")
         if t == "opm" and any(m["frame"] == "QSW" for m in spec["mans"]):
             f.append("man-qsw")
+    if t == "opm":
+        if any(m["kind"] in ("KI", "KC") for m in spec["mans"]):
+            f.append("man-kepl")
+        if any(m.get("scale") and m["scale"] != spec["scale"] for m in spec["mans"]):
+            f.append("mixed-scale")
+        if any(m.get("date_pos", "start").lower() != "start" for m in spec["mans"]):
+            f.append("man-date-pos")
     if t == "oem":
         if any(len(s["points"]) == 1 for s in spec["segs"]):
             f.append("points1")
         if any(sum(1 for p in s["points"] if p["cov"]) == 1 for s in spec["segs"]):
             f.append("cov1")
+        if any(s.get("form", "cartesian") != "cartesian" for s in spec["segs"]):
+            f.append("form-noncart")
+        if any(p.get("scale") and p["scale"] != s["scale"] for s in spec["segs"] for p in s["points"]):
+            f.append("mixed-scale")
     if t == "tdm":
+        if any(o.get("scale") and o["scale"] != spec["scale"] for o in spec["obs"]):
+            f.append("mixed-scale")
         for pi in range(len(spec["paths"])):
             if sum(1 for o in spec["obs"] if o["path"] == pi) == 1:
                 f.append("obs1")
@@ -648,6 +855,17 @@ def classify(raw, feats):
         ("tdm-xml-load:CcsdsError@tdm._loads_xml", "doppler", "tdm-doppler-not-read"),
         ("tdm-kvn-load:KeyError@tdm._loads_kvn", "elev-no-az", "tdm-elevation-without-azimuth"),
         ("tdm-xml-load:UnboundLocalError@tdm._loads_xml", "elev-no-az", "tdm-elevation-without-azimuth"),
+        ("opm-kvn-restored:man.instant", "mixed-scale", "mixed-scale-epoch:opm.maneuver"),
+        ("opm-xml-restored:man.instant", "mixed-scale", "mixed-scale-epoch:opm.maneuver"),
+        ("oem-kvn-restored:point.instant", "mixed-scale", "mixed-scale-epoch:oem.point"),
+        ("oem-xml-restored:point.instant", "mixed-scale", "mixed-scale-epoch:oem.point"),
+        ("tdm-kvn-restored:obs.instant", "mixed-scale", "mixed-scale-epoch:tdm.observation"),
+        ("tdm-xml-restored:obs.instant", "mixed-scale", "mixed-scale-epoch:tdm.observation"),
+        ("opm-kvn-dump:AttributeError@opm._dumps_kvn", "man-kepl", "opm-keplerian-maneuver"),
+        ("opm-xml-dump:AttributeError@opm._dumps_xml", "man-kepl", "opm-keplerian-maneuver"),
+        ("opm-kvn-restored:man.effect", "man-kepl", "opm-keplerian-maneuver"),
+        ("opm-xml-restored:man.effect", "man-kepl", "opm-keplerian-maneuver"),
+        ("oem-xml-dump:AttributeError@oem._dumps_xml", "form-noncart", "oem-xml-dump-noncartesian-form"),
         ("tdm-redump-kvn:TypeError@commons.detect2dump", "paths2", "tdm-multi-path-reloads-as-list"),
         ("tdm-redump-xml:TypeError@commons.detect2dump", "paths2", "tdm-multi-path-reloads-as-list"),
     ]
@@ -684,6 +902,87 @@ def roundtrip(spec, fmt, via="arg"):
     return res
 
 
+import re
+
+_DATE_RE = re.compile(r"(\d{4})-(\d{2})-(\d{2})T(\d{2}:\d{2}:\d{2})\.(\d{6})")
+
+
+def _doy(m):
+    d = datetime(int(m.group(1)), int(m.group(2)), int(m.group(3)))
+    return f"{m.group(1)}-{d.timetuple().tm_yday:03d}T{m.group(4)}.{m.group(5)}"
+
+
+def variants(text, t, fmt):
+    """other texts a conforming producer could have written for the same object — the optional notations the readers accept
+    (default units, RTN for RSW, day-of-year dates, dates without fraction, comment and blank lines, acceleration columns,
+    range in seconds, theory named SGP4, centre in lower case); (name, text) pairs"""
+    out = []
+    if fmt == "kvn":
+        v = re.sub(r"[ ]*\[[^\]\n]*\]$", "", text, flags=re.M)
+        if v != text:
+            out.append(("no-units", v))
+        lines = text.split("\n")
+        k = next(i for i, l in enumerate(lines) if l.startswith("ORIGINATOR"))
+        out.append(("comments", "\n".join(lines[:k + 1] + ["COMMENT generated for a test", "", "COMMENT second line = with [brackets]"] + lines[k + 1:])))
+        if t == "oem":
+            out.append(("accelerations", "\n".join(l + " 0.000001 -0.000002 0.000003" if _DATE_RE.match(l) and len(l.split()) == 7 else l for l in lines)))
+        if t == "tdm" and "RANGE_UNITS" in text:
+            c_kms = 299792.458
+            def rng_s(m):
+                return f"{m.group(1)}{float(m.group(2)) / c_kms:.15e}"
+            v = re.sub(r"^(RANGE +=\s+\S+ )(\S+)$", rng_s, text.replace("= km", "= s"), flags=re.M)
+            out.append(("range-seconds", v))
+        if t == "omm":
+            out.append(("theory-sgp4", text.replace("= SGP/SGP4", "= SGP4")))
+            out.append(("no-type-class", "\n".join(l for l in lines if not l.startswith(("EPHEMERIS_TYPE", "CLASSIFICATION_TYPE")))))
+        if t in ("opm", "oem"):
+            out.append(("centre-lower", text.replace("= EARTH", "= Earth")))
+    else:
+        v = re.sub(r' units="[^"]*"', "", text)
+        if v != text:
+            out.append(("no-units", v))
+        if t == "omm":
+            out.append(("theory-sgp4", text.replace(">SGP/SGP4<", ">SGP4<")))
+            out.append(("no-type-class", re.sub(r"\s*<(EPHEMERIS_TYPE|CLASSIFICATION_TYPE)>[^<]*</\1>", "", text)))
+        if t in ("opm", "oem"):
+            out.append(("centre-lower", text.replace(">EARTH<", ">Earth<")))
+    if "RSW" in text:
+        out.append(("rtn", re.sub(r"(REF_FRAME\s*=\s*|REF_FRAME>)RSW", r"\1RTN", text)))
+    out.append(("day-of-year", _DATE_RE.sub(_doy, text)))
+    body = text.split("ORIGINATOR", 1)[1]
+    if _DATE_RE.search(body) and all(m.group(5) == "000000" for m in _DATE_RE.finditer(body)):
+        out.append(("no-fraction", text.split("ORIGINATOR", 1)[0] + "ORIGINATOR" + _DATE_RE.sub(lambda m: m.group(0)[:-7], body)))
+    return [(n, v) for n, v in out if v != text]
+
+
+def check_variants(out, spec, fmt, r, feats):
+    """the reader side: every optional notation decodes to the same object, which can be written again"""
+    from beyond.io.ccsds import loads
+    t = spec["type"]
+    for name, text in variants(r["text"], t, fmt):
+        out.count(key=None, kind=f"{t}-{fmt}-variant", variant=name)
+        try:
+            back = loads(text)
+        except Exception as e:
+            out.fail(f"{t}-{fmt}-variant:{name}:{type(e).__name__}@{_site_ccsds(e)}", f"{t.upper()} {fmt}: the same message written with `{name}` is not read: {type(e).__name__} {str(e)[:100]}",
+                     {"spec": spec, "fmt": fmt, "variant": name, "features": feats}, observed=type(e).__name__, expected="same object")
+            continue
+        d = compare(r["canon1"], canon(back, spec))
+        if name == "range-seconds":
+            # what RANGE_UNITS = s means is the reader's business alone (the writers never produce it): outside the statement.
+            # (lead, not a C13 finding: tdm.py multiplies seconds by km * c with c in m/s — 1000 times too large)
+            d = [x for x in d if x[0] != "obs.value"]
+        if d:
+            out.fail(f"{t}-{fmt}-variant:{name}:{d[0][0]}", f"{t.upper()} {fmt}: the same message written with `{name}` decodes differently in field {d[0][0]}",
+                     {"spec": spec, "fmt": fmt, "variant": name, "features": feats}, observed=d[0][2], expected=d[0][1])
+        for f2 in ("kvn", "xml"):
+            try:
+                Fmt(f2, "arg").dumps(back)
+            except Exception as e:
+                out.fail(classify(f"{t}-redump-{f2}:{type(e).__name__}@{_site_ccsds(e)}", feats), f"{t.upper()} read from {fmt} written with `{name}` cannot be dumped as {f2}: {type(e).__name__}",
+                         {"spec": spec, "fmt": fmt, "variant": name, "refmt": f2, "features": feats}, observed=type(e).__name__, expected="text")
+
+
 def check_spec(out, spec, via="arg", kind="random"):
     """all clauses of the property on one generated object; failures go to `out`"""
     t = spec["type"]
@@ -705,6 +1004,8 @@ def check_spec(out, spec, via="arg", kind="random"):
             out.fail(classify(f"{t}-{fmt}-restored:{tag}", feats), f"{t.upper()} {fmt}: field {d[0]} is not restored by loads(dumps(x))",
                      {"spec": spec, "fmt": fmt, "via": via, "features": feats}, observed=d[2], expected=d[1])
         loaded[fmt] = r
+        if kind != "replay-novariants":
+            check_variants(out, spec, fmt, r, feats)
         # anything that was read can be written again
         for f2 in ("kvn", "xml"):
             try:
@@ -757,6 +1058,20 @@ def witness_specs():
         opm(mans=[man("QSW")]), opm(mans=[man("TNW"), man(None)]), opm(ud={"FOO": "bar"}), opm(ud={}), omm(ud={"FOO": "bar"}), omm(), omm(via_tle=False),
         tdm([ob("Range", 0)]), tdm([ob("Doppler", 0), ob("Doppler", 1)]), tdm([ob("Elevation", 0), ob("Elevation", 1)]),
         tdm([ob("Range", 0), ob("Range", 1), ob("Range", 0, 1), ob("Range", 1, 1)], (("STA", "SAT", "STA"), ("STB", "SAT"))),
+        # continuous maneuvers dated by their median / stop (date_pos), given by accel, frames by name
+        opm(mans=[dict(man(None), kind="C", dur_ms=240000, date_pos="stop"), dict(man("TNW"), kind="C", dur_ms=240000, date_pos="median", by="accel"),
+                  dict(man("EME2000"), kind="C", dur_ms=500, date_pos="start"), dict(man("teme"), comment="")]),
+        # user-defined names with underscores, digits, lower case (CCSDS examples: EARTH_MODEL)
+        opm(ud={"EARTH_MODEL": "WGS-84", "TANK_1_MASS": "12.5", "TANK_1": "x y", "foo_bar": "1"}), omm(ud={"EARTH_MODEL": "WGS-84", "TANK_2_MASS": "7.25"}),
+        # open findings: dates labelled in another scale than the message (TT - UTC = 32.184 s + leap seconds, GPS - TAI = -19 s)
+        opm(mans=[dict(man(None), scale="TT")]),
+        {"type": "oem", "segs": [seg([pt(0), dict(pt(5), scale="TT"), pt(10)])], "as_list": False},
+        tdm([ob("Range", 0), dict(ob("Range", 12), scale="GPS")]),
+        # open finding: points kept in a non-cartesian form
+        {"type": "oem", "segs": [dict(seg([pt(0), pt(1)]), form="keplerian")], "as_list": False},
+        # open finding: Keplerian maneuvers
+        opm(mans=[dict(man(None), kind="KI", dkep={"da": 1000.0, "di": 0.0, "dOmega": 0.0})]),
+        opm(mans=[dict(man(None), kind="KC", dur_ms=60000, dkep={"da": 1000.0, "di": 0.001, "dOmega": 0.0})]),
     ]
 
 
@@ -897,7 +1212,13 @@ def read_tables():
                 raise RuntimeError(f"covariance frame alias differs in {f}")
     t["covAliasIn"] = _alias_in(lc)
     # maneuvers
-    mk, mx = _alias_eq(_func(opm, "_dumps_kvn")), _alias_eq(_func(opm, "_dumps_xml"))
+    def deep(mod, name):
+        """alias rules of a writer and of the module-level helpers it calls (a refactoring may move the maneuver block into one)"""
+        fn = _func(mod, name)
+        local = {n.name for n in mod.body if isinstance(n, ast.FunctionDef)} - {name}
+        called = {c.func.id for c in ast.walk(fn) if isinstance(c, ast.Call) and isinstance(c.func, ast.Name) and c.func.id in local}
+        return sorted(set(_alias_eq(fn)) | {a for h in called for a in _alias_eq(_func(mod, h))})
+    mk, mx = deep(opm, "_dumps_kvn"), deep(opm, "_dumps_xml")
     if mk != mx:
         raise RuntimeError(f"maneuver frame alias differs between the OPM writers: {mk} vs {mx}")
     t["manAliasOut"] = mk
@@ -976,6 +1297,60 @@ def read_tables():
                  "wrapOmmUd": "USER_DEFINED" in w["omm"], "wrapOemSegment": "segment" in w["oem"],
                  "wrapOemStateVector": "stateVector" in w["oem"], "wrapOemCov": "covarianceMatrix" in w["oem"],
                  "wrapTdmSegment": "segment" in w["tdm"], "wrapTdmObservation": "observation" in w["tdm"]}
+    # ---- Generated/CcsdsExtTables.lean: what the written dates mean, constructor options of the objects written
+    src = {f: open(os.path.join(CCSDS_DIR, f)).read() for f in ("opm.py", "oem.py", "tdm.py")}
+    # do the writers convert a date to the TIME_SYSTEM of the message: directly (`.change_scale(`) or through a helper of commons.py that does
+    csrc = open(os.path.join(CCSDS_DIR, "commons.py")).read()
+    helpers = [n.name for n in ast.walk(commons) if isinstance(n, ast.FunctionDef) and "change_scale" in ast.get_source_segment(csrc, n)]
+    t["scaleConv"] = {k: "change_scale" in src[k + ".py"] or any(re.search(r"\b%s\(" % h, src[k + ".py"]) for h in helpers) for k in ("opm", "oem", "tdm")}
+    # attribute of a ContinuousMan printed as MAN_EPOCH_IGNITION: `date = man.<attr>` under `isinstance(man, ContinuousMan)`,
+    # else the first element returned by the helper that holds that test
+    attrs = set()
+    for fn in [n for n in ast.walk(opm) if isinstance(n, ast.FunctionDef)]:
+        hits = [n for n in ast.walk(fn) if isinstance(n, ast.If) and "id='ContinuousMan'" in ast.dump(n.test) and "isinstance" in ast.dump(n.test)]
+        if not hits or fn.name.startswith("_loads"):
+            continue
+        found = set()
+        for n in hits:
+            for b in n.body:
+                if isinstance(b, ast.Assign) and isinstance(b.targets[0], ast.Name) and b.targets[0].id == "date" and isinstance(b.value, ast.Attribute):
+                    found.add(b.value.attr)
+        if not found:
+            for n in ast.walk(fn):
+                if isinstance(n, ast.Return) and isinstance(n.value, ast.Tuple) and n.value.elts and isinstance(n.value.elts[0], ast.Attribute) \
+                        and n.value.elts[0].attr in ("date", "start", "stop", "median"):
+                    found.add(n.value.elts[0].attr)
+        attrs |= found
+    if len(attrs) != 1:
+        raise RuntimeError(f"cannot tell which date of a ContinuousMan the OPM writers print: {sorted(attrs)}")
+    t["manIgnitionAttr"] = attrs.pop()
+    pos = set()
+    for f in ("_loads_kvn", "_loads_xml"):
+        for n in ast.walk(_func(opm, f)):
+            if isinstance(n, ast.Call) and getattr(n.func, "id", "") == "ContinuousMan":
+                kw = {k.arg: _const(k.value) for k in n.keywords}
+                pos.add(kw.get("date_pos", "start"))
+    if len(pos) != 1:
+        raise RuntimeError(f"OPM readers rebuild continuous maneuvers with different date_pos: {sorted(pos, key=str)}")
+    t["manReadDatePos"] = str(pos.pop())
+    conv = lambda fn: any(x in ast.get_source_segment(src["oem.py"], _func(oem, fn)) for x in ('.form = "cartesian"', 'form="cartesian"'))
+    t["oemKvnConvertsForm"], t["oemXmlConvertsForm"] = conv("_dumps_kvn"), conv("_dumps_xml")
+    t["opmWritesKeplerian"] = "dkep2dv" in src["opm.py"] or "Keplerian" in src["opm.py"].replace("Keplerian elements", "")
+    # the USER_DEFINED_ prefix of the KVN keys: writers `f"USER_DEFINED_{k} = {v}\\n"`, readers `k.startswith(P)` ... `k[N:]`
+    wp, rp, rs = set(), set(), set()
+    for mod, name in ((opm, "opm.py"), (omm, "omm.py")):
+        for n in ast.walk(_func(mod, "_dumps_kvn")):
+            if isinstance(n, ast.JoinedStr) and n.values and isinstance(n.values[0], ast.Constant) and str(n.values[0].value).startswith("USER_DEFINED"):
+                wp.add(n.values[0].value)
+        fn = _func(mod, "_loads_kvn")
+        for n in ast.walk(fn):
+            if isinstance(n, ast.Call) and isinstance(n.func, ast.Attribute) and n.func.attr == "startswith" and n.args and str(_const(n.args[0])).startswith("USER_DEFINED"):
+                rp.add(n.args[0].value)
+            if isinstance(n, ast.Subscript) and isinstance(n.slice, ast.Slice) and n.slice.upper is None and isinstance(_const(n.slice.lower), int) and isinstance(n.value, ast.Name):
+                rs.add(n.slice.lower.value)
+    if len(wp) != 1 or len(rp) != 1 or len(rs) != 1:
+        raise RuntimeError(f"cannot read how the KVN readers/writers spell user-defined keys: writers {sorted(wp)}, readers startswith {sorted(rp)}, slice {sorted(rs)}")
+    t["udWritePrefix"], t["udReadPrefix"], t["udReadSkip"] = wp.pop(), rp.pop(), rs.pop()
     # frames (live objects, through the writers' own expressions)
     from beyond.frames import get_frame
     ft = []
@@ -1014,7 +1389,23 @@ def extract(ctx):
         L.append(f"def {k} : Bool := {'true' if v else 'false'}")
     L.append("end BeyondVerif.Generated")
     ch = core.write_if_changed(os.path.join(core.LEAN, "BeyondVerif", "Generated", "CcsdsTables.lean"), "\n".join(L) + "\n")
-    return ["Generated/CcsdsTables.lean"] if ch else []
+    b = lambda v: "true" if v else "false"
+    E = ["/- GENERATED by harness/props/C13.py from beyond/io/ccsds/*.py (AST) — do not edit. -/",
+         "namespace BeyondVerif.Generated",
+         f"def opmManScaleConv : Bool := {b(t['scaleConv']['opm'])}",
+         f"def oemPointScaleConv : Bool := {b(t['scaleConv']['oem'])}",
+         f"def tdmObsScaleConv : Bool := {b(t['scaleConv']['tdm'])}",
+         f"def manIgnitionAttr : String := {json.dumps(t['manIgnitionAttr'])}",
+         f"def manReadDatePos : String := {json.dumps(t['manReadDatePos'])}",
+         f"def oemKvnConvertsForm : Bool := {b(t['oemKvnConvertsForm'])}",
+         f"def oemXmlConvertsForm : Bool := {b(t['oemXmlConvertsForm'])}",
+         f"def opmWritesKeplerian : Bool := {b(t['opmWritesKeplerian'])}",
+         f"def udWritePrefix : String := {json.dumps(t['udWritePrefix'])}",
+         f"def udReadPrefix : String := {json.dumps(t['udReadPrefix'])}",
+         f"def udReadSkip : Nat := {t['udReadSkip']}",
+         "end BeyondVerif.Generated"]
+    ch2 = core.write_if_changed(os.path.join(core.LEAN, "BeyondVerif", "Generated", "CcsdsExtTables.lean"), "\n".join(E) + "\n")
+    return (["Generated/CcsdsTables.lean"] if ch else []) + (["Generated/CcsdsExtTables.lean"] if ch2 else [])
 
 
 # ---------------------------------------------------------------- correspondence: compiled model vs real dumps/loads
@@ -1138,18 +1529,122 @@ def corr_case(out, spec, via, kind):
     return lines, reals
 
 
+def _model_domain(spec):
+    """the structural model has no Keplerian maneuvers, no form of the points and one time scale per message: those three options
+    go through the `ext` operations (kepl, form, stamp)"""
+    if spec["type"] == "opm":
+        spec["mans"] = [dict(m, scale=None) for m in spec["mans"] if m["kind"] in ("I", "C")]
+    if spec["type"] == "oem":
+        for s in spec["segs"]:
+            s["form"] = "cartesian"
+            for p in s["points"]:
+                p["scale"] = None
+    if spec["type"] == "tdm":
+        for o in spec["obs"]:
+            o["scale"] = None
+    return spec
+
+
+def _sv0(scale="UTC", ep=7367 * 86400 * 10**6 + 123456, dx=0.0):
+    from beyond.orbits import StateVector
+    return StateVector([7.0e6 + dx, 1.0e5, -3.0e5, 10.0, 7500.0, 300.0], _date(ep, scale), "cartesian", "EME2000", name="SAT", cospar_id="2020-001A")
+
+
+def ext_cases(rng, n):
+    """(request line, reply of the real code) for the operations of Model/CcsdsExt.lean"""
+    from beyond.io.ccsds import dumps, loads
+    from beyond.dates import timedelta
+    from beyond.orbits import Ephem
+    from beyond.orbits.man import ImpulsiveMan, ContinuousMan, KeplerianImpulsiveMan, KeplerianContinuousMan
+    from beyond.utils.measures import MeasureSet, Range
+    out = []
+    ep = 7367 * 86400 * 10**6
+    for i in range(n):
+        fmt = "kvn" if i % 2 == 0 else "xml"
+        # thrust window of a continuous maneuver dated by its start / median / stop
+        pos = rng.choice(["start", "median", "stop"])
+        dur_ms = rng.choice([2, 1000, 180000, 240000, 2 * rng.randrange(1, 5 * 10**6)])
+        date = ep + rng.randrange(10**5) * 10**6 + rng.randrange(10**6)
+        sv = _sv0()
+        sv.maneuvers = [ContinuousMan(_date(date, "UTC"), timedelta(milliseconds=dur_ms), dv=[1.0, 2.0, 3.0], date_pos=pos)]
+        try:
+            m = loads(dumps(sv, fmt=fmt)).maneuvers[0]
+            real = f"{_us(m.start)} {_us(m.stop)}"
+        except Exception as e:
+            real = f"err {type(e).__name__}"
+        out.append((f"c13 ext window {date} {dur_ms * 1000} {pos}", real, {"op": "window", "fmt": fmt, "date": date, "dur_ms": dur_ms, "date_pos": pos}))
+        # a secondary date labelled in another scale than the message
+        msg, sc = rng.choice(SCALES), rng.choice(SCALES)
+        clock = ep + rng.randrange(10**5) * 10**6 + rng.randrange(10**6)
+        d = _date(clock, sc)
+        off_s, off_m = _us(d) - _tai(d), _us(d.change_scale(msg)) - _tai(d)
+        site = rng.choice(["opm", "oem", "tdm"])
+        try:
+            if site == "opm":
+                sv = _sv0(msg)
+                sv.maneuvers = [ImpulsiveMan(d, [1.0, 2.0, 3.0])]
+                back = loads(dumps(sv, fmt=fmt)).maneuvers[0].date
+            elif site == "oem":
+                e = Ephem([_sv0(msg, clock - 3600 * 10**6), _sv0(sc, clock, 5.0)])
+                back = loads(dumps(e, fmt=fmt))[1].date
+            else:
+                ms = MeasureSet([Range(["A", "B", "A"], _date(clock - 3600 * 10**6, msg), 1e6), Range(["A", "B", "A"], d, 2e6)])
+                back = loads(dumps(ms, fmt=fmt))[1].date
+            real = f"{_us(back)} {back.scale.name}"
+        except Exception as e:
+            real = f"err {type(e).__name__}"
+        out.append((f"c13 ext stamp {site} {msg} {sc} {clock} {off_s} {off_m}", real, {"op": "stamp", "site": site, "fmt": fmt, "msg": msg, "scale": sc, "clock": clock}))
+    for i in range(max(4, n // 3)):
+        name = _ud_key(rng).replace(" ", "")
+        typ = "opm" if i % 2 == 0 else "omm"
+        try:
+            obj, kw = build(witness_specs()[4 if typ == "opm" else 7])
+            obj._data["ccsds_user_defined"] = {name: "v"}
+            back = loads(dumps(obj, fmt="kvn"))._data.get("ccsds_user_defined", {})
+            real = list(back)[0] if len(back) == 1 else ("none" if not back else "several")
+        except Exception as e:
+            real = f"err {type(e).__name__}"
+        out.append((f"c13 ext udkey {name}", real, {"op": "udkey", "type": typ, "name": name}))
+    for fmt in ("kvn", "xml"):
+        for form in FORMS[1:]:
+            pts = [_sv0("UTC", ep + k * 60 * 10**6, float(k)) for k in range(2)]
+            for p in pts:
+                p.form = form
+            try:
+                dumps(Ephem(pts), fmt=fmt)
+                real = "ok"
+            except Exception as e:
+                real = f"err dump {type(e).__name__}"
+            out.append((f"c13 ext form {fmt} {form}", real, {"op": "form", "fmt": fmt, "form": form}))
+        for k, man in enumerate([KeplerianImpulsiveMan(_date(ep + 10**9, "UTC"), da=1000.0), KeplerianContinuousMan(_date(ep + 10**9, "UTC"), timedelta(seconds=60), da=1000.0)]):
+            sv = _sv0()
+            sv.maneuvers = [man]
+            try:
+                txt = dumps(sv, fmt=fmt)
+                real = "zeros" if not any(loads(txt).maneuvers[0]._dv) else "dv"
+            except Exception as e:
+                real = f"err dump {type(e).__name__}"
+            out.append((f"c13 ext kepl {k}", real, {"op": "kepl", "fmt": fmt, "continuous": k}))
+    return out
+
+
 def correspondence(ctx):
     out = Outcome()
     rng = ctx.rng
     n = {"opm": ctx.n(60, 1500), "omm": ctx.n(40, 1000), "oem": ctx.n(40, 1000), "tdm": ctx.n(50, 1200)}
     cases = []
+    ext = ext_cases(rng, ctx.n(30, 600))
     for t, k in n.items():
         for i in range(k):
-            spec = GENS[t](rng)
+            spec = _model_domain(GENS[t](rng))
             via = "config" if i % 5 == 4 else "arg"
             lines, reals = corr_case(out, spec, via, t)
             cases.append((spec, via, lines, reals))
-    model = core.Driver().run([l for c in cases for l in c[2]])
+    model = core.Driver().run([l for c in cases for l in c[2]] + [e[0] for e in ext])
+    for (line, real, inp), m in zip(ext, model[len(model) - len(ext):]):
+        out.count(key=line, nontrivial=True, kind="ext " + inp["op"], result=real.split(" ")[0] if real.startswith("err") or inp["op"] in ("form", "kepl") else "value")
+        if m != real:
+            out.fail("ccsds-model-ext", f"model and implementation differ on `ext {inp['op']}`", inp, observed=real, expected=m)
     k = 0
     for spec, via, lines, reals in cases:
         for line, real in zip(lines, reals):
